@@ -180,8 +180,8 @@ class VDict(V):
     dom: Any
     val: Any
     ty: Ty
-    pos: Any = None  # insertion position (odict only)
-    n: Any = None  # number of keys (odict only)
+    pos: Any = None  # insertion stamp (odict only)
+    n: Any = None  # next insertion stamp (odict only); NOT the number of keys
 
 
 @dataclass
@@ -304,18 +304,15 @@ def fresh(S: Sorts, ty: Ty, base: str, facts: List[Any]) -> V:
 
 
 def odict_invariant(S: Sorts, d: VDict) -> List[Any]:
-    """positions of present keys are a bijection onto [0, n)."""
+    """insertion stamps: pos is injective on the present keys and below the next stamp n
+    (python's OrderedDict/dict order is the order of these stamps; removal leaves gaps)."""
     ks = d.dom.sort().domain()
-    a = z3.Const(fresh_name("a"), ks)
-    b = z3.Const(fresh_name("b"), ks)
-    i = z3.Int(fresh_name("i"))
-    inv = S.func("okey_" + str(d.pos), z3.IntSort(), ks) if False else None
-    key_at = z3.Function(fresh_name("key_at"), z3.IntSort(), ks)
+    a = z3.Const("odict_a", ks)
+    b = z3.Const("odict_b", ks)
     return [
         d.n >= 0,
-        z3.ForAll([a], z3.Implies(d.dom[a], z3.And(0 <= d.pos[a], d.pos[a] < d.n)), patterns=[d.pos[a]]),
-        z3.ForAll([a, b], z3.Implies(z3.And(d.dom[a], d.dom[b], d.pos[a] == d.pos[b]), a == b), patterns=[z3.MultiPattern(d.pos[a], d.pos[b])]),
-        z3.ForAll([i], z3.Implies(z3.And(0 <= i, i < d.n), z3.And(d.dom[key_at(i)], d.pos[key_at(i)] == i)), patterns=[key_at(i)]),
+        z3.ForAll([a], z3.Implies(d.dom[a], z3.And(0 <= d.pos[a], d.pos[a] < d.n))),
+        z3.ForAll([a, b], z3.Implies(z3.And(d.dom[a], d.dom[b], d.pos[a] == d.pos[b]), a == b)),
     ]
 
 
